@@ -6,12 +6,13 @@ tvars == <<pvars, l>>
 TInit == TLCSet(1, 0) /\ PInit /\ l = 1
 Ev(e) == l <= Len(Log) /\ Log[l].ev = e /\ l' = l + 1
 SetOf(s) == {s[i] : i \in 1..Len(s)}
-Known == {"start", "next_req", "invoke", "accept", "runtime_done", "up_req", "up_done", "init_error", "stall", "end"}
+Known == {"init_mark", "start", "next_req", "invoke", "accept", "runtime_done", "up_req", "up_done", "init_error", "stall", "end"}
 TNext == \/ Ev("start") /\ PStart(Log[l].fault)
          \/ Ev("next_req") /\ PNextReq
          \/ Ev("invoke") /\ PInvoke
          \/ Ev("accept") /\ PAccept(Log[l].d)
          \/ Ev("runtime_done") /\ PRuntimeDone
+         \/ Ev("init_mark") /\ PInitMark
          \/ Ev("up_req") /\ PUpReq(SetOf(Log[l].ds))
          \/ Ev("up_done") /\ PUpDone(SetOf(Log[l].ds))
          \/ Ev("init_error") /\ PInitError
